@@ -443,6 +443,8 @@ impl Prop for Ctor {
         let nanos = match u.below(5)? {
             0 => *u.choose(&[0u64, 1, 86_399_999_999_999, 86_400_000_000_000, 86_400_000_000_001, u64::MAX, 1 << 63, 1 << 32])?,
             1 => u.int_in_range(0..=u64::MAX)?,
+            // values whose second count is in range only after truncation to 32 bits
+            2 => (u.int_in_range(1..=4u64)? << 32).wrapping_mul(1_000_000_000).wrapping_add(u.int_in_range(0..=90_000u64)? * 1_000_000_000 + u.int_in_range(0..=999_999_999u64)?),
             _ => u.int_in_range(0..=90_000_000_000_000u64)?,
         };
         Ok(CtorCase { h: small(u, 23)?, m: small(u, 59)?, s: small(u, 59)?, secs, nanos })
@@ -516,8 +518,8 @@ fn single_ops() -> Vec<Op> {
 
 pub fn run(env: &mut Env) {
     let t = env.thorough();
-    env.run_random::<Ctor>(if t { 3_000_000 } else { 300_000 });
-    env.run_random::<History>(if t { 5_000_000 } else { 300_000 });
+    env.run_random::<Ctor>(if t { 3_000_000 } else { 1_000_000 });
+    env.run_random::<History>(if t { 5_000_000 } else { 1_000_000 });
     // every second of the day x sub-second boundary x every single operation (thorough);
     // quick: every 97th second
     let ops = std::sync::Arc::new(single_ops());
